@@ -401,8 +401,20 @@ package martian
 
 // tunnel: the reply is written; whether the copy happens or not, the exchange
 // is reported complete exactly once (here or by writeResponse on failure).
+// (bicopy as tunnel calls it, on the client connection: besides the drained
+// early data, no read deadline of the request that set the tunnel up may still
+// be armed on the client connection - the copy would end with a time-out while
+// both endpoints are alive. C03 "every byte either endpoint writes is delivered",
+// C15 "never closed merely because ...")
+//@ contract connBicopy(ctx context.Context, cc []copier)
+//@ requires len(cc) == 2 && drained(cc[0].dst)
+//@ requires noDeadline(rdAt(cc[0].src.(net.Conn), rdN(cc[0].src.(net.Conn)) - 1))
+//@ modifies *
+//@ preserves proxyConn.Proxy proxyConn.brw proxyConn.conn Proxy.* bufio.ReadWriter.* http.Response.StatusCode http.Response.Request http.Request.Method
+
 //@ func (*proxyConn).tunnel
-//@ property C13 C03
+//@ property C13 C03 C15
+//@ callas bicopy connBicopy
 //@ requires p != nil && p.Proxy != nil && p.conn != nil && p.brw != nil && p.brw.Writer != nil && p.brw.Reader != nil && crw != nil && res != nil && res.Request != nil && res.Header != nil
 //@ requires deferredReport(res.Request.Method, res.StatusCode)
 //@ modifies *, nWrote(), wroteStatus(), sawClosing(), wrotePA(), wErr()
